@@ -4,7 +4,7 @@ A changed /repo may loop forever (e.g. an encoder whose termination test is brok
 runs fn() under an interval timer and raises CallTimeout, which the engine records as the observed
 outcome ({"ok": false, "exc": "CallTimeout"}) so that TLC judges it, instead of hanging the check.
 After MAX_TIMEOUTS time-outs charged to the same `what`, further calls are not made at all (they are
-recorded as CallTimeout too), so a looping function costs seconds, not hours."""
+recorded as CallSkippedAfterTimeouts), so a looping function costs seconds, not hours."""
 import signal
 
 MAX_TIMEOUTS = 3
@@ -15,19 +15,23 @@ class CallTimeout(Exception):
     pass
 
 
+class CallSkippedAfterTimeouts(CallTimeout):
+    """Not called: the same function already exceeded its time limit MAX_TIMEOUTS times."""
+
+
 def _raise(signum, frame):
     raise CallTimeout()
 
 
 def limited(fn, seconds=2.0, what=None):
     if what is not None and _count.get(what, 0) >= MAX_TIMEOUTS:
-        raise CallTimeout()
+        raise CallSkippedAfterTimeouts()
     old = signal.signal(signal.SIGALRM, _raise)
     signal.setitimer(signal.ITIMER_REAL, seconds)
     try:
         return fn()
     except CallTimeout:
-        if what is not None:
+        if what is not None and _count.get(what, 0) < MAX_TIMEOUTS:
             _count[what] = _count.get(what, 0) + 1
         raise
     finally:
